@@ -651,13 +651,13 @@ def localNames (ctx : Ctx) (d : Bytes) (off : Int) : Nat → Nat → R (List Nod
     let rest ← localNames ctx d off k (nl + 1)
     pure (.leaf .localVar (.s name) idxl :: rest)
 
-/-- parameter names; also reports whether some index was ≤ 0 (`fn.is_method = True`) -/
+/-- parameter names; also reports whether some index was < 0 (`fn.is_method = True`) -/
 def paramNames (ctx : Ctx) (d : Bytes) (off : Int) : Nat → Nat → R (List Node × Bool)
   | 0, _ => .ok ([], false)
   | k + 1, nl => do
     let idxl : Int := 2 * nl + off
     let n ← getSI 2 d idxl
-    let (node, m) ← if n > 0 then do
+    let (node, m) ← if n ≥ 0 then do
         let name ← nameAt ctx n
         pure (Node.leaf .paramName (.s name) idxl, false)
       else pure (Node.leaf .paramName (.s (S "me")) idxl, true)
